@@ -656,6 +656,9 @@ class System:
 
     def close_model(self, model):
         model.refmgr.del_all_spec()
+        # IOs whose specs were never bound to a reference,
+        # e.g. those of a model whose loading failed half-way
+        self.iomanager.del_group(model.interface)
         del self.models[model.name]
         if self.currentmodel is model:
             self.currentmodel = None
